@@ -30,8 +30,8 @@ def plan(prop, tier, seed, t0):
     M = dict(module="MC_RankTree.tla", workers=W)
     A = ("AStartAnneal", "AAnnealStep")
     # q: exact neighbour order, E3 P3 P4 C4 Star4 E4;  aq: annealer loop, order-normalised, P3 P4 C4 Star4
-    mcs = [dict(name="tree", cfg="MC_RankTree_q.cfg", timeout=900, actions=MOVES, **M),
-           dict(name="anneal", cfg="MC_RankTree_aq.cfg", timeout=900, actions=A, **M)]
+    mcs = [dict(name="tree", cfg="MC_RankTree_q.cfg", timeout=3000, actions=MOVES, **M),
+           dict(name="anneal", cfg="MC_RankTree_aq.cfg", timeout=3000, actions=A, **M)]
     if not q:
         # t: order-normalised C5 K4P P5;  a: annealer loop exact on P3 C4;  a5: annealer loop normalised up to C5 K4P
         mcs += [dict(name="tree5", cfg="MC_RankTree_t.cfg", timeout=3000, actions=MOVES, **M),
